@@ -85,10 +85,11 @@ func ReadAmmoConfig(fs afero.Fs, fileName string) (ammoCfg *AmmoConfig, err erro
 			return
 		}
 		ammoCfg, err = ConvertHCLToAmmo(ammoHcl)
-	case strings.HasSuffix(lowerName, ".yaml") || strings.HasSuffix(lowerName, ".yml"):
+	case strings.HasSuffix(lowerName, ".yaml") || strings.HasSuffix(lowerName, ".yml") || strings.HasSuffix(lowerName, ".json"):
+		// JSON is a subset of YAML and is read by the same parser
 		ammoCfg, err = ParseAmmoConfig(file)
 	default:
-		err = fmt.Errorf("%s file extension should be .yaml or .yml", op)
+		err = fmt.Errorf("%s file extension should be .hcl, .yaml, .yml or .json", op)
 		return
 	}
 	if err != nil {
